@@ -17,7 +17,8 @@
 //!   F8-lookup-rejected-name         get/has_attribute miss an attribute that attributes() lists because
 //!                                   the QUERY is validated with the setter's reject list
 //!   F9-integration-point-namespace  namespace_uri of an HTML integration point element (svg desc/title/
-//!                                   foreignObject, math mi/mo/mn/ms/mtext) is XHTML; html5ever: SVG/MathML
+//!                                   foreignObject, math mi/mo/mn/ms/mtext, annotation-xml with an HTML encoding)
+//!                                   is XHTML; html5ever: SVG/MathML
 //!   bom-sniffing-read-accessor      a name/value beginning with a BOM is decoded as UTF-8/UTF-16
 //!   foreign-root-inside-foreign-namespace  `<math><svg>` reports SVG (html5ever: MathML) and vice versa (pkg-simthm's finding)
 //!   anything else is a distinct tag (name, attrs, lookup, self-closing, content, namespace, location, count).
@@ -531,7 +532,16 @@ pub fn run(line: &str) -> String {
                         if local.to_ascii_lowercase() == lname && rt.end == tag.len() && !tag.iter().any(|&b| b == b'\r' || b == 0) {
                             let want_ns = ns_num(&ns);
                             if e.ns != want_ns {
-                                let ip = (f[0] == "svg" && SVG_IP.contains(&lname.as_str())) || (f[0] == "math" && MATH_IP.contains(&lname.as_str()));
+                                // annotation-xml with encoding=text/html | application/xhtml+xml is an HTML integration point too
+                                let ann_ip = f[0] == "math" && lname == "annotation-xml" && !rt.self_closing
+                                    && rt.attrs.iter().any(|a| {
+                                        let n = lower(&tag[a.name.0..a.name.1]);
+                                        let v = lower(&tag[a.value.0..a.value.1]);
+                                        n == b"encoding" && (v == b"text/html" || v == b"application/xhtml+xml")
+                                    });
+                                let ip = (f[0] == "svg" && SVG_IP.contains(&lname.as_str()))
+                                    || (f[0] == "math" && MATH_IP.contains(&lname.as_str()))
+                                    || ann_ip;
                                 if ip && e.ns == 0 {
                                     flag("F9-integration-point-namespace", format!("<{lname}> in {}: namespace_uri XHTML, html5ever {ns}", f[0]));
                                 } else if f[0] != "html" && (lname == "svg" || lname == "math") && e.ns == (if lname == "svg" { 1 } else { 2 }) {
